@@ -189,6 +189,9 @@ class Meta:
         if r < 0.85:
             tag = '$dict' if r < 0.7 else '$setup'
             pool = self.__dict__.setdefault('_shared_pool', {})
+            from . import values as _values
+            if _values.refs_in(v):
+                pool = {}       # (values naming objects belong to one logical file: never reused elsewhere)
             if (tag, t) in pool and rng.random() < 0.35:
                 # the caller hands over the very object already used for another attribute of the same kind
                 return pool[(tag, t)], None
@@ -334,9 +337,11 @@ class Meta:
                 pass
 
 
-def populate(spec, lfi, rng, n=None, kinds=None, hc=False, routes=True, set_name=None, p_attr=0.45, units=True):
+def populate(spec, lfi, rng, n=None, kinds=None, hc=False, routes=True, set_name=None, p_attr=0.45, units=True, shared_pool=None):
     """Add n metadata objects in a dependency-friendly order (targets before referrers, with repeats)."""
     m = Meta(spec, lfi, rng, hc=hc, routes=routes, set_name=set_name, units=units)
+    if shared_pool is not None:
+        m._shared_pool = shared_pool      # value objects the caller reuses across files / logical files
     order = ['zone', 'axis', 'long_name', 'well_reference_point', 'equipment', 'parameter', 'computation', 'tool',
              'calibration_coefficient', 'calibration_measurement', 'calibration', 'process', 'splice', 'path', 'group',
              'message', 'comment', 'no_format']
